@@ -95,6 +95,10 @@ func BuildHAProxyEndpointsRequest(
 	}
 	managedEndpoints := []*HAProxyEndpointData{}
 	for _, endpoint := range policies.Endpoints {
+		if endpoint.URL == "*" && hasEnabledPlugin(endpoint) {
+			// an endpoint declared on every URL can only be served by managing all traffic
+			manageAll = true
+		}
 		for _, remedy := range endpoint.Remedies {
 			if remedy.Enabled {
 				managedEndpoints = append(managedEndpoints,
@@ -113,6 +117,20 @@ func BuildHAProxyEndpointsRequest(
 		BodyNeededForAll: manageAll,
 		ManagedEndpoints: managedEndpoints,
 	}
+}
+
+func hasEnabledPlugin(endpoint shared_config.EndpointConfig) bool {
+	for _, remedy := range endpoint.Remedies {
+		if remedy.Enabled {
+			return true
+		}
+	}
+	for _, diagnosis := range endpoint.Diagnosis {
+		if diagnosis.Enabled {
+			return true
+		}
+	}
+	return false
 }
 
 func WaitForProxyHealthcheck() error {
